@@ -6,8 +6,8 @@ import (
 	"crypto/sha1"
 	"encoding/base64"
 	"fmt"
-	"io"
 	"hash/fnv"
+	"io"
 	"math/rand"
 	"net"
 	"os"
@@ -346,6 +346,19 @@ func wsEcho(req *rawhttp.Message, conn net.Conn, br *bufio.Reader) {
 		}
 		conn.Write([]byte{0x88, 2, byte(code >> 8), byte(code)})
 		time.Sleep(50 * time.Millisecond)
+		return
+	}
+	if strings.Contains(req.Target, "/stall-then-") {
+		// the backend stops reading (so the peer's writes back up), then ends the session: with a close frame (1001) or a reset
+		time.Sleep(700 * time.Millisecond)
+		if strings.Contains(req.Target, "/stall-then-reset/") {
+			if tc, ok := conn.(*net.TCPConn); ok {
+				tc.SetLinger(0)
+			}
+			return
+		}
+		conn.Write([]byte{0x88, 2, 0x03, 0xe9})
+		time.Sleep(300 * time.Millisecond)
 		return
 	}
 	tag := req.Target
